@@ -273,6 +273,11 @@ def fsal_check(rep, ctx, m, flag, init_flag="Continue", solout_present=True, acc
         rep.inconc(rule, key, str(an))
         return
     sx, hk = an
+    from protocol import answer_idiom_unknown
+    unk_ = answer_idiom_unknown(ctx.facts.body(fn))
+    if unk_ and solout_present:
+        rep.inconc(rule, key, "the callback's answer is merged with other values before it is tested (the call is the value of a match / if arm): the stepper model cannot select the answer's branch", span(unk_[0]))
+        return
     if not hk.pre_slot_ok:
         msg = "no buffer holds f(x, y) at loop entry (initial flag %s)" % init_flag
         (rep.note if as_note else lambda s: rep.violation(rule, key + ":entry", s, span(hk.main_loop)))(msg if not as_note else "%s %s" % (key, msg))
